@@ -41,18 +41,46 @@ func verifDesiredFromHook(val string, extraKey bool, extraVal string, setsSystem
 	return d
 }
 
+// verifWithoutOwnAnnotation: a copy of o's content without the last-applied
+// annotation (and without an annotations map that holds nothing else).
+func verifWithoutOwnAnnotation(o *unstructured.Unstructured) map[string]interface{} {
+	c := o.DeepCopy()
+	ann := c.GetAnnotations()
+	delete(ann, dynamicapply.LastAppliedAnnotation)
+	if len(ann) == 0 {
+		unstructured.RemoveNestedField(c.Object, "metadata", "annotations")
+	} else {
+		c.SetAnnotations(ann)
+	}
+	return c.Object
+}
+
 func VerifC05_ApplyUpdate() {
 	parent := env.Thing("ns", "p", "puid")
 	obsVal, desVal := rt.String("obsVal"), rt.String("desVal")
 	hadExtra, wantExtra := rt.Bool("previously-applied-extra-key"), rt.Bool("desired-extra-key")
 	extraOld, extraNew := rt.String("extraOld"), rt.String("extraNew")
 	setsSystem := rt.Bool("hook-sets-system-fields")
+	// (the hook of the EARLIER sync may have echoed system fields although the
+	// one of this sync does not, and the other way round: the last-applied
+	// record then mentions them and the desired state does not)
+	setSystemBefore := setsSystem
+	if rt.Bool("the-earlier-hook-answer-differed-in-that") {
+		setSystemBefore = !setsSystem
+	}
 	echo := rt.Bool("hook-echoes-annotations")
 	foreign := rt.Bool("foreign-fields")
 	hasStatus := rt.Bool("observed-has-status")
 	phase, foreignVal := rt.String("phase"), rt.String("foreignVal")
 
-	observed := verifApplied(verifDesiredFromHook(obsVal, hadExtra, extraOld, setsSystem, nil), parent, "uid-a")
+	observed := verifApplied(verifDesiredFromHook(obsVal, hadExtra, extraOld, setSystemBefore, nil), parent, "uid-a")
+	// an object metacontroller never applied (adopted, or so far managed through
+	// server-side apply) has no annotations at all
+	bare := !echo && rt.Bool("observed-has-no-annotations-at-all")
+	if bare {
+		rt.Cover("observed-without-annotations")
+		unstructured.RemoveNestedField(observed.Object, "metadata", "annotations")
+	}
 	if foreign {
 		observed.Object["data"].(map[string]interface{})["other"] = foreignVal
 		env.SetAnnotation(observed, "someone/else", foreignVal)
@@ -74,6 +102,7 @@ func VerifC05_ApplyUpdate() {
 	delete(ann, dynamicapply.LastAppliedAnnotation)
 	wantRecord.SetAnnotations(ann)
 
+	desired0 := desired.DeepCopy()
 	res, err := ApplyUpdate(observed, desired)
 	rt.Assert(err == nil, "apply/error")
 	if err != nil {
@@ -82,6 +111,11 @@ func VerifC05_ApplyUpdate() {
 	rt.Cover("applied")
 	// L6: the observed (cached) object is never mutated
 	gen.Equal(observed.Object, observed0.Object, "L6-purity/observed-mutated-by-ApplyUpdate")
+	// ... nor the desired one (the hook's answer) - except that metacontroller's
+	// OWN annotation, which an echoing hook copied into it, may be taken out
+	if !gen.Same(desired.Object, desired0.Object) {
+		gen.Equal(desired.Object, verifWithoutOwnAnnotation(desired0), "L6-purity/desired-mutated-by-ApplyUpdate")
+	}
 	// L4: system metadata and status exactly as observed
 	rm, om := res.Object["metadata"].(map[string]interface{}), observed0.Object["metadata"].(map[string]interface{})
 	for _, f := range []string{"uid", "resourceVersion", "generation", "creationTimestamp", "deletionTimestamp", "selfLink"} {
@@ -103,7 +137,7 @@ func VerifC05_ApplyUpdate() {
 	gen.EqLeaf(rd["k"], desVal, "L1-containment/owned-field")
 	if wantExtra {
 		gen.EqLeaf(rd["extra"], extraNew, "L1-containment/new-owned-field")
-	} else {
+	} else if !bare {
 		_, still := rd["extra"]
 		rt.Assert(!still, "L2-removal/previously-applied-field-not-removed")
 	}
